@@ -1,6 +1,7 @@
 """C17 — plain-HTTP forwarding: the real into_forwarded pair relayed by the real DuplexPipe between a scripted client and a scripted origin."""
 from run_check import Case
 from vlib import line, untok
+from props.wirecases import gen_wire_cases, judge_wire
 
 TRUSTED_BASE = [
     "Coq 8.16.1 kernel (coqc; coqchk in the thorough tier)",
@@ -133,11 +134,17 @@ def gen_cases(rng, ctx):
             resp_hs += [("Connection", "X-Hop, keep-alive"), ("X-Hop", "1"), ("Keep-Alive", "timeout=5")]
         if rng.chance(1, 6):
             resp_hs += [("Proxy-Connection", "close"), ("Upgrade", "h2c")]
+        # the origin may send its fields in any order: a field named by Connection may stand before it
+        if rng.chance(1, 2):
+            rng.shuffle(resp_hs)
         bodiless = method == "HEAD" or status in (204, 304)
         if mode == "cl":
             resp_hs.append(("Content-Length", str(len(data))))
             wire_body = data
         elif mode == "chunked":
+            if version >= 2 and not bodiless and rng.chance(1, 5):
+                # an origin that also states a length (RFC 9112 6.3: Transfer-Encoding overrides it and the proxy removes it)
+                resp_hs.append(("Content-Length", str(len(data) + 7)))
             resp_hs.append(("Transfer-Encoding", "chunked"))
             wire_body = gen_chunked(rng, data)
         else:
@@ -220,6 +227,8 @@ def gen_cases(rng, ctx):
                           meta={"method": "GET", "path": "/p", "exp_req_hs": sorted([("accept", "*/*"), ("host", "@A")]), "fwd_body": [], "declared": None,
                                 "version": 3, "status": 200, "interim": [], "exp_hs": [("content-length", "9000")], "exp_body": list(body),
                                 "complete": True, "trailing": False, "sizes": [len(head), p_, "..."], "acc": [], "mode": "cl"}))
+    # the request head written towards the origin (encode_request) through the door
+    cases += gen_wire_cases(rng, 60 if thorough else 20, responses=False)
     return cases
 
 
@@ -245,6 +254,8 @@ def known_finding(case, kind, msg, known):
 
 
 def judge(case, impl, model, spec, ctx):
+    if case.meta and case.meta.get("wire"):
+        return judge_wire(case, impl, model, spec)
     if impl == "999":
         return [("violation", "the forwarded stream panicked")]
     t = impl.split()
